@@ -47,6 +47,8 @@ pub struct Profile {
     /// chance (percent) that, before closing, all proofs are dropped and a vault that was locked
     /// is withdrawn in full (everything must be liquid again)
     pub full_withdraw_pct: u64,
+    /// chance (percent) that an outflow from a locked container is sized against liquid + locked
+    pub aim_locked_pct: u64,
 }
 
 impl Profile {
@@ -65,7 +67,7 @@ impl Profile {
         w[C_DEPOSIT_WORKTOP] = 4;
         w[C_BADGE] = 7;
         w[C_DROP_MANY] = 1;
-        Profile { min_steps: 1, max_steps: 14, w, fault_pct: 4, leave_pct: 4, account_fee_pct: 15, focus: None, full_withdraw_pct: 0 }
+        Profile { min_steps: 1, max_steps: 14, w, fault_pct: 4, leave_pct: 4, account_fee_pct: 15, focus: None, full_withdraw_pct: 0, aim_locked_pct: 10 }
     }
     /// worktop / bucket moves
     pub fn worktop() -> Profile {
@@ -84,7 +86,7 @@ impl Profile {
         w[C_DEPOSIT_WORKTOP] = 4;
         w[C_BADGE] = 3;
         w[C_DROP_MANY] = 0;
-        Profile { min_steps: 1, max_steps: 16, w, fault_pct: 6, leave_pct: 10, account_fee_pct: 5, focus: None, full_withdraw_pct: 0 }
+        Profile { min_steps: 1, max_steps: 16, w, fault_pct: 6, leave_pct: 10, account_fee_pct: 5, focus: None, full_withdraw_pct: 0, aim_locked_pct: 10 }
     }
     /// proofs interleaved with outflows
     pub fn proofs() -> Profile {
@@ -107,7 +109,7 @@ impl Profile {
         w[C_DEPOSIT] = 3;
         w[C_DEPOSIT_WORKTOP] = 1;
         w[C_BADGE] = 5;
-        Profile { min_steps: 5, max_steps: 22, w, fault_pct: 2, leave_pct: 2, account_fee_pct: 3, focus: None, full_withdraw_pct: 40 }
+        Profile { min_steps: 5, max_steps: 22, w, fault_pct: 2, leave_pct: 2, account_fee_pct: 3, focus: None, full_withdraw_pct: 40, aim_locked_pct: 20 }
     }
 }
 
@@ -179,6 +181,14 @@ struct G<'a, 'g, 't> {
     faults: u32,
     touched: BTreeSet<usize>,
     full_withdraw: bool,
+    /// the current step may emit an instruction that fails for a "boring" reason
+    allow_boring: bool,
+}
+
+/// Failure reasons a non-faulty step must not produce by accident (construction over rejection):
+/// they say nothing about resources and only cut the manifest short.
+fn boring(why: Why) -> bool {
+    matches!(why, "auth" | "emptyproof" | "novault" | "any" | "nobucket" | "noproof" | "zone_empty" | "exists" | "fee_touched" | "trap" | "insufficient_proofs")
 }
 
 impl<'a, 'g, 't> G<'a, 'g, 't> {
@@ -296,6 +306,7 @@ impl<'a, 'g, 't> G<'a, 'g, 't> {
         let mut t2 = self.tx.clone();
         match t2.apply(&ins) {
             Err(UNPREDICTABLE) => false,
+            Err(why) if !self.allow_boring && boring(why) => false,
             r => {
                 let fee_before = self.tx.fee_ok;
                 self.tx = t2;
@@ -337,10 +348,24 @@ impl<'a, 'g, 't> G<'a, 'g, 't> {
         let fault = self.g.chance(self.prof.fault_pct, 100);
         let cat = self.g.weighted(&self.prof.w);
         let before = self.ins.len();
+        self.allow_boring = fault;
         self.gen_cat(cat, fault);
+        self.allow_boring = true;
         if fault && self.ins.len() > before {
             self.faults += 1;
         }
+    }
+
+    /// Make sure a `Gate::Badge` role can be exercised: put a badge proof into the auth zone.
+    fn want_gate(&mut self, gate: Gate, fault: bool) -> bool {
+        if fault || self.tx.gate_ok(gate) {
+            return true;
+        }
+        if gate == Gate::Badge {
+            self.gen_cat(C_BADGE, false);
+            return self.tx.gate_ok(gate);
+        }
+        false
     }
 
     fn gen_cat(&mut self, cat: usize, fault: bool) {
@@ -364,7 +389,8 @@ impl<'a, 'g, 't> G<'a, 'g, 't> {
                 self.touched.insert(res);
                 match &v.liquid {
                     Liquid::F(l) => {
-                        let amount = self.amount(res, *l, fault);
+                        let aim = if v.locked() && self.g.chance(self.prof.aim_locked_pct, 100) { v.amount() } else { *l };
+                        let amount = self.amount(res, aim, fault);
                         if res == XRD_R && self.g.chance(1, 8) && !fault {
                             self.push(cat, Ins::LockFeeAndWithdraw { acct, fee: 25 * ONE, res, amount: amount.min((*l - 25 * ONE).max(0)) });
                         } else {
@@ -373,7 +399,8 @@ impl<'a, 'g, 't> G<'a, 'g, 't> {
                     }
                     Liquid::N(h) => {
                         if self.g.chance(2, 3) {
-                            let mut ids = self.subset(&h.known, true);
+                            let pool = if v.locked() && self.g.chance(self.prof.aim_locked_pct, 100) { v.all_known_ids() } else { h.known.clone() };
+                            let mut ids = self.subset(&pool, true);
                             if fault {
                                 let f = self.fresh_id(res);
                                 ids.insert(f);
@@ -475,7 +502,10 @@ impl<'a, 'g, 't> G<'a, 'g, 't> {
                         self.push(cat, Ins::AssertIds { res, ids });
                     }
                     _ => {
-                        self.push(cat, Ins::AssertAny { res });
+                        // on a resource that is absent only when a fault is wanted
+                        if total > 0 || fault {
+                            self.push(cat, Ins::AssertAny { res });
+                        }
                     }
                 }
             }
@@ -494,6 +524,12 @@ impl<'a, 'g, 't> G<'a, 'g, 't> {
                         }
                         *self.g.pick(&l)
                     };
+                    if let Some(c) = self.tx.buckets.get(&b) {
+                        let gate = self.wd.res[self.tx.conts[*c].res].burn;
+                        if !self.want_gate(gate, fault) {
+                            return;
+                        }
+                    }
                     self.push(cat, Ins::BurnBucket { b });
                 } else {
                     let rs: Vec<usize> = self.resources().into_iter().filter(|r| fault || self.wd.res[*r].burn != Gate::Closed).collect();
@@ -501,6 +537,9 @@ impl<'a, 'g, 't> G<'a, 'g, 't> {
                         return;
                     }
                     let res = *self.g.pick(&rs);
+                    if !self.want_gate(self.wd.res[res].burn, fault) {
+                        return;
+                    }
                     let acct = match self.hot_acct(res) {
                         Some(a) => a,
                         None => self.pick_acct(true),
@@ -535,6 +574,9 @@ impl<'a, 'g, 't> G<'a, 'g, 't> {
                     return;
                 }
                 let res = *self.g.pick(&rs);
+                if !self.want_gate(self.wd.res[res].mint, fault) {
+                    return;
+                }
                 self.touched.insert(res);
                 match self.wd.res[res].kind.clone() {
                     Kind::F { .. } => {
@@ -602,6 +644,10 @@ impl<'a, 'g, 't> G<'a, 'g, 't> {
                         acct = a;
                     }
                 }
+                let gate = if want_freeze { self.wd.res[res].freeze } else { self.wd.res[res].recall };
+                if !self.want_gate(gate, fault) {
+                    return;
+                }
                 self.touched.insert(res);
                 if want_freeze {
                     let flags = 1 + self.g.below(7) as u32;
@@ -615,12 +661,14 @@ impl<'a, 'g, 't> G<'a, 'g, 't> {
                 let v = self.tx.peek_vault(acct, res).unwrap();
                 match &v.liquid {
                     Liquid::F(l) => {
-                        let amount = self.amount(res, *l, fault && self.wd.res[res].recall != Gate::Closed);
+                        let aim = if v.locked() && self.g.chance(self.prof.aim_locked_pct, 100) { v.amount() } else { *l };
+                        let amount = self.amount(res, aim, fault && self.wd.res[res].recall != Gate::Closed);
                         self.push(cat, Ins::Recall { acct, res, amount });
                     }
                     Liquid::N(h) => {
                         if self.g.chance(3, 4) {
-                            let mut ids = self.subset(&h.known, true);
+                            let pool = if v.locked() && self.g.chance(self.prof.aim_locked_pct, 100) { v.all_known_ids() } else { h.known.clone() };
+                            let mut ids = self.subset(&pool, true);
                             if fault && self.wd.res[res].recall != Gate::Closed {
                                 let f = self.fresh_id(res);
                                 ids.insert(f);
@@ -652,7 +700,10 @@ impl<'a, 'g, 't> G<'a, 'g, 't> {
                     if self.g.chance(1, 4) {
                         self.push(cat, Ins::ProofFromBucketAll { b });
                     } else {
-                        let amount = self.amount(c.res, c.amount(), fault);
+                        let mut amount = self.amount(c.res, c.amount(), fault);
+                        if amount == 0 && !fault {
+                            amount = self.wd.res[c.res].grid().min(c.amount());
+                        }
                         self.push(cat, Ins::ProofFromBucketAmount { b, amount });
                     }
                 } else if self.g.chance(1, 3) {
@@ -683,7 +734,10 @@ impl<'a, 'g, 't> G<'a, 'g, 't> {
                 let Some(v) = self.tx.peek_vault(acct, res) else { return };
                 match &v.liquid {
                     Liquid::F(_) => {
-                        let amount = if cat == C_BADGE && !fault { ONE } else { self.amount(res, v.amount(), fault) };
+                        let mut amount = if cat == C_BADGE && !fault { ONE } else { self.amount(res, v.amount(), fault) };
+                        if amount == 0 && !fault {
+                            amount = self.wd.res[res].grid().min(v.amount());
+                        }
                         self.push(cat, Ins::AccountProofAmount { acct, res, amount });
                     }
                     Liquid::N(_) => {
@@ -714,7 +768,10 @@ impl<'a, 'g, 't> G<'a, 'g, 't> {
                     if self.g.chance(1, 4) {
                         self.push(cat, Ins::ZoneProofAll { res });
                     } else {
-                        let amount = self.amount(res, total, fault);
+                        let mut amount = self.amount(res, total, fault);
+                        if amount == 0 && !fault {
+                            amount = self.wd.res[res].grid().min(total);
+                        }
                         self.push(cat, Ins::ZoneProofAmount { res, amount });
                     }
                 } else {
@@ -965,6 +1022,7 @@ pub fn generate(g: &mut Gen, wd: &Wd, led: &Ledger, prof: &Profile) -> Plan {
         faults: 0,
         touched: BTreeSet::new(),
         full_withdraw: false,
+        allow_boring: true,
     };
     // fee
     let from_account = !signers.is_empty() && s.g.chance(prof.account_fee_pct, 100);
